@@ -8,7 +8,7 @@ def build(ctx):
     ctx.builddir = B.fresh_dir("c18")
     d = ctx.builddir + "/asan"
     objs = B.build_lib("asan", d)
-    return {"h_c18": B.build_harness("asan", d, "h_c18", ["h_c18.c"], objs, wraps=["mmap"])}
+    return {"h_c18": B.build_harness("asan", d, "h_c18", ["h_c18.c"], objs, wraps=["mmap", "fopen"])}
 
 
 def run(ctx):
@@ -28,6 +28,6 @@ def run(ctx):
         floors={"histories": 1000, "objects.sorter": 2000, "objects.iter": 5000, "objects.fileset": 1000, "objects.merger": 2000, "objects.usersource": 300, "life.usersource.free_callback_calls_at_destroy.1": 300, "life.sorter.destroyed_before_iterating": 300,
                 "life.sorter.destroyed_after_iteration": 300, "life.sorter.destroyed_unused": 100, "life.sorter.destroyed_after_reported_failure": 20, "life.sorter.pooled": 300,
                 "life.iter.destroyed_half_drained": 1000, "life.iter.destroyed_untouched": 1000, "life.iter.destroyed_drained": 500, "life.merger.failing_merge_callback": 200,
-                "ops.reader.non_table_returned_null": 500, "ops.writer.refused_add": 1000, "checks.lsan": 100, "ops.fileset.reload_now": 300, "ops.reader.mmap_failure_returned_null": 100, "ops.fileset.partition": 100, "ops.codec.decompress.damaged.failure": 300, "ops.reader.forged_index_extent": 500, "life.sorter.write_refused_by_nonempty_writer": 20},
+                "ops.reader.non_table_returned_null": 500, "ops.writer.refused_add": 1000, "checks.lsan": 100, "ops.fileset.reload_now": 300, "ops.reader.mmap_failure_returned_null": 100, "ops.fileset.partition": 100, "ops.fileset.setfile_fopen_failed": 100, "ops.sorter_iter.again.returned_iterator": 100, "ops.codec.decompress.damaged.failure": 300, "ops.reader.forged_index_extent": 500, "life.sorter.write_refused_by_nonempty_writer": 20},
         extra={"objects_by_type": {k[len("objects."):]: v for k, v in s.items() if k.startswith("objects.")},
                "lifecycle_points": {k[len("life."):]: v for k, v in s.items() if k.startswith("life.")}})
